@@ -36,7 +36,7 @@ pub struct C08 {
     pub cfg: gen::css::CssCfg,
 }
 
-pub const PREFIXES: &[Option<&str>] = &[None, Some(""), Some("p"), Some("a-b"), Some("组件"), Some("p")];
+pub const PREFIXES: &[Option<&str>] = &[None, Some(""), Some("p"), Some("a-b"), Some("组件"), Some("p"), Some("e\u{301}"), Some("z\u{200d}")];
 pub const RATIOS: &[f64] = &[750.0, 375.0, 10.0, 1.0, 7.5, 0.001, 30000.0, 750.0];
 
 pub fn opts_strategy() -> BoxedStrategy<Opts> {
